@@ -345,6 +345,11 @@ func (p *c01Prop) runBroker(c *c01Case) interface{} {
 				n := a.CountOthers(mqttp.UNSUBACK)
 				u := mqttp.NewUnSubscribe(a.Ver)
 				u.SetPacketID(mqttp.IDType(r.subid))
+				if op.Pre {
+					if never, e0 := mqttp.NewTopic([]byte(fmt.Sprintf("zz/never/%d", r.subid))); e0 == nil {
+						_ = u.AddTopic(never)
+					}
+				}
 				tp, e2 := mqttp.NewTopic([]byte(filter))
 				if e2 != nil {
 					fail("topic %q: %v", filter, e2)
